@@ -15,6 +15,8 @@
 // The child writes what it observed (argv, environment, stdin bytes) into the report file.
 #define DRV_NO_MAIN
 #include "drv.h"
+#include <dlfcn.h>
+#include <sys/select.h>
 #include <errno.h>
 #include <fcntl.h>
 #include <sys/stat.h>
@@ -91,6 +93,8 @@ static int echo_main(int argc, char** argv)
   fclose(f);
   if(nout > 0) emit_pattern(1, nout);
   if(nerr > 0) emit_pattern(2, nerr);
+  // odd codes leave through the library's own Process::exit (the exit code must reach the parent all the same)
+  if(code & 1) Process::exit((uint32)code);
   _exit(code);
 }
 
@@ -206,6 +210,23 @@ static Report log_report(int wantEnv)
 static void j_hex_of(const char* s) { for(; *s; ++s) fprintf(g_out, "%02x", (unsigned char)*s); }
 
 // reads everything the child writes to its redirected output streams; returns 0, or -1 on a read error
+// select() interposed at link time: after the op "selto" the next call behaves like an expired time-out (returns 0 with the
+// descriptor set cleared and the timeval zeroed, as the kernel leaves them); the multiplexed Process::read has to arm both again
+static int g_selto = 0;
+extern "C" int select(int nfds, fd_set* rd, fd_set* wr, fd_set* ex, struct timeval* tv)
+{
+  typedef int (*fn_t)(int, fd_set*, fd_set*, fd_set*, struct timeval*);
+  static fn_t real = 0;
+  if(!real) real = (fn_t)dlsym(RTLD_NEXT, "select");
+  if(g_selto && rd)
+  {
+    g_selto = 0;
+    FD_ZERO(rd);
+    if(tv) { tv->tv_sec = 0; tv->tv_usec = 0; }
+    return 0;
+  }
+  return real(nfds, rd, wr, ex, tv);
+}
 static int drain(Process& p, uint streams, long* nout, int* okout, long* nerr, int* okerr)
 {
   static unsigned char buf[70000];
@@ -421,6 +442,7 @@ static void do_spawn2()
 void drv_apply(const char* op)
 {
   if(!strcmp(op, "spawn2")) { do_spawn2(); return; }
+  if(!strcmp(op, "selto")) { g_selto = 1; fputs("{\"op\":\"selto\"}\n", g_out); return; }
   if(!strcmp(op, "args")) do_args();
   else if(!strcmp(op, "cmd")) do_cmd();
   else if(!strcmp(op, "spawn")) do_spawn();
